@@ -5,7 +5,11 @@ EXTENDS Serve, Json
 
 Runs == ndJsonDeserialize("serve_traces.ndjson")
 
-Bad == {i \in 1..Len(Runs) : Runs[i].err # "" \/ ~Conforms(Runs[i].tl, Runs[i].handler)}
+\* runs with a scripted write failure (field faulty): the timeline ends with the connection closing; what was consumed
+\* before must have been handed over (HandedOver), and up to the failing write the acknowledgements are the usual ones
+Bad == {i \in 1..Len(Runs) :
+          IF Runs[i].faulty THEN ~HandedOver(Runs[i].tl, Runs[i].handler)
+          ELSE Runs[i].err # "" \/ ~Conforms(Runs[i].tl, Runs[i].handler)}
 
 ASSUME PrintT(<<"REPORT", ToJson([n |-> Len(Runs), bad |-> {Runs[i].id : i \in Bad}])>>)
 =============================================================================
